@@ -236,7 +236,7 @@ def probeSvcs (pr : Probes) : List (Option SvcName) :=
   pr.g.map (fun o => match o with | some s => (specParse s).map (·.1) | none => none) ++
   pr.h.map (fun (_, t) => (specParse (targetPath t)).map (·.1)) ++
   pr.w.map (fun t => match unescapePath (targetPath t) with
-    | some _ => (specParse (targetPath t)).map (·.1) | none => none) ++   -- the path as WRITTEN names the service (fix D38)
+    | some _ => (specParse (targetPath t)).map (·.1) | none => none) ++   -- the path as WRITTEN names the service (fix D39)
   pr.x.map (fun s => (specParse s).map (·.1))
 
 /-- the owner the specification demands: the first claimant, with its latest description -/
@@ -368,7 +368,7 @@ def judgeStep (pr : Probes) (keys : Keys) (names : List Name) (k : Nat) (op : Op
       | 47 :: _ =>
         (match unescapePath (targetPath t) with
         | none => "R"
-        | some _ => match specParse (targetPath t), ow with   -- verbatim, like gRPC's `:path` (fix D38)
+        | some _ => match specParse (targetPath t), ow with   -- verbatim, like gRPC's `:path` (fix D39)
           | some (svc, m), some r => if pool r.target then s!"F.{toHex r.target}.{r.ver}.{r.idx}.{toHex (slash :: svc ++ slash :: m)}" else s!"S{codeUnavailable}"
           | _, _ => s!"S{codeUnimplemented}")
       | _ => "R")
